@@ -1,7 +1,9 @@
 """C14 - module identity follows dotted-name boundaries, never raw string prefixes.
 
   C14.R1  every string-relational operation whose tested string is module-name-typed uses a boundary-safe idiom (F-NAME lint,
-          sites of group "relation": prefix / suffix / substring / regex / replace / slice-by-length / slice-by-index)
+          sites of group "relation": prefix / suffix / substring / regex / replace / slice-by-length / slice-by-index; sites of
+          group "order" (F-NAME.ORDER): a scan over names sorted as plain strings does not stop / jump / forget remembered names
+          where a name is unrelated - plain string order is no pre-order of the module tree: 'a' < 'a-b' < 'a.b')
   C14.R2  names are cut and re-assembled at '.' only (F-NAME lint, sites of group "separator": split / partition / find with a
           constant, join of components, characters of a name compared with a constant). The name-cutting functions are found by
           role: whatever is reachable from the public `get_parent_modules` and from the constructor of the public `NetworkxGraph`
@@ -66,7 +68,7 @@ def run(repo: Repo) -> Result:
     res.not_decided = "invariance under renaming as a relation between two runs; regex specifications (excluded by the property)."
     res.trusted_base = ["engine flow analysis (provenance of module names)", "accepted boundary-safe idioms listed in rules/names.py"]
     sites = names.scan(repo)
-    n1 = add_sites(repo, res, "C14.R1", sites, only=lambda s: _group(s) == "relation")
+    n1 = add_sites(repo, res, "C14.R1", sites, only=lambda s: _group(s) in ("relation", "order"))
     n2 = add_sites(repo, res, "C14.R2", sites, only=lambda s: _group(s) == "separator")
     for s in sites:
         if _group(s) in FOREIGN_GROUPS and s.name_typed:
